@@ -552,7 +552,7 @@ func c16Sessions(c *ctx) {
 		dur         time.Duration
 	}
 	pairs := make([]pair, len(jobs))
-	sem := make(chan struct{}, 6)
+	sem := make(chan struct{}, vlib.Conc(6))
 	var wg sync.WaitGroup
 	for i := range jobs {
 		wg.Add(1)
